@@ -648,6 +648,27 @@ def deepcopyEntries : IdDict → List (Nat × Nat) → IdDict → Heap → IdDic
     | none =>
       deepcopyEntries r ((e.2, h.cals.length) :: memo) (out ++ [(e.1, h.cals.length)]) (h.allocCal (h.calOf e.2)).2
 
+/-- the calibration part of the constructors: `{name: Calibration() for name in self.elements}` and
+`.update(copy.deepcopy(calibration))` — the entries of the laser's (new) dict -/
+def conCal (h : Heap) (els : List Name) (given : Option Nat) : IdDict × Heap :=
+  let r0 := allocDefaults els [] h
+  match given with
+  | none => r0
+  | some g =>
+    let cp := deepcopyEntries (r0.2.dict g) [] [] r0.2
+    (cp.1.foldl (fun acc e => dictSet acc e.1 e.2) r0.1, cp.2)
+
+/-- the configuration part: `copy.copy(config)` (a new object with the same attribute values: the offsets
+array of an `SRRConfig` is shared), or a new default `Config()` / `SRRConfig()` -/
+def conCfg (h : Heap) (srr : Bool) (config : Option Nat) : Nat × Heap :=
+  match config with
+  | some k => h.allocCfg (h.cfgOf k)
+  | none =>
+    if srr then
+      let o := h.allocOffs 0
+      o.2.allocCfg ⟨0, some o.1⟩
+    else h.allocCfg ⟨0, none⟩
+
 /-- `Laser(data, calibration, config)` / `SRRLaser(data, calibration, config)`; `given` and `config` are
 the identities of the caller's dict and config object.  `none` = the constructor raises
 (`assert len(data) > 1`) or the call is not expressible (`Laser` takes one array). -/
@@ -655,22 +676,9 @@ def hConstruct (h : Heap) (srr : Bool) (data : List Arr) (given : Option Nat) (c
     Option World :=
   if (srr && data.length ≤ 1) || (!srr && data.length != 1) then none
   else
-    let r0 := allocDefaults (elementsOf data) [] h
-    let r1 : IdDict × Heap :=
-      match given with
-      | none => r0
-      | some g =>
-        let cp := deepcopyEntries (r0.2.dict g) [] [] r0.2
-        (cp.1.foldl (fun acc e => dictSet acc e.1 e.2) r0.1, cp.2)
+    let r1 := conCal h (elementsOf data) given
     let r2 := r1.2.allocDict r1.1
-    let r3 : Nat × Heap :=
-      match config with
-      | some k => r2.2.allocCfg (r2.2.cfgOf k)          -- `copy.copy(config)`
-      | none =>                                          -- `Config()` / `SRRConfig()`
-        if srr then
-          let o := r2.2.allocOffs 0
-          o.2.allocCfg ⟨0, some o.1⟩
-        else r2.2.allocCfg ⟨0, none⟩
+    let r3 := conCfg r2.2 srr config
     some { heap := r3.2, laser := { srr := srr, data := data, cal := r2.1, cfg := r3.1 } }
 
 def copyArrs : List Arr → Heap → List Arr × Heap
